@@ -123,4 +123,21 @@ PROPS = {
         "trusted_base": ["hand transcription (tied by trace replay each run)", "fake Authenticate hooks write their own 401 when they refuse, as the interface documentation demands"],
         "assumptions": ["an error returned because the body Write itself failed or was short is not counted as 'written and failed' (the status has necessarily gone out)"],
     },
+    "C20": {
+        "level": "proof",
+        "lean_modules": ["AV.Props.C20"],
+        "support_modules": ["AV.Spec.C20", "AV.Core.Sha256", "AV.Core.Time", "AV.Pub.Util", "AV.Pub.BaseActor"],
+        "theorems": [
+            "AV.Props.C20.firstOcc_sublist", "AV.Props.C20.firstOcc_nodup", "AV.Props.C20.firstOcc_complete",
+            "AV.Props.C20.dedupeKey_eq", "AV.Props.C20.dedupeGo_eq", "AV.Props.C20.dedupe_spec", "AV.Props.C20.respond_headers",
+            "AV.Props.C20.handler_status", "AV.Props.C20.sha256_abc", "AV.Props.C20.sha256_empty", "AV.Props.C20.base64_vectors",
+        ],
+        "translator_scope": [r"gen_lean", r"T2 failed"],
+        "runners": [{"args": ["pub-C20", "1500", "4", "get"], "timeout": 1500}],
+        "exhaustive": {"quick": False, "thorough": False},
+        "rule": "random ordered-collection pages with 0..30 items (IRIs or embedded activities, duplicates anywhere) served by GetInbox/GetOutbox; handler values of ten types with bto/bcc at object depth 0..4, tombstones and missing values; clocks over years 1940..2100 and several zones; short body writes; single faults. "
+                "Independent oracles recomputed in Lean from the recorded bytes and clock: SHA-256/base64 Digest, RFC 7231 Date, first-occurrence de-duplication, bto/bcc absence. non-trivial = a body was written; distinct by scenario hash",
+        "trusted_base": ["Lean SHA-256/base64/IMF-date implementations (FIPS/RFC vectors proved by kernel evaluation; compared with Go's output on every case)", "hand transcription (trace replay)"],
+        "assumptions": ["de-duplication theorem is for pages whose items all have a usable id (otherwise the code returns an error, which the replay also checks)"],
+    },
 }
